@@ -610,6 +610,10 @@ class RelativeJSONPointer:
             parts.extend(self.pointer.parts)
         else:
             assert self.pointer == "#"
+            if not parts:
+                raise RelativeJSONPointerIndexError(
+                    "the document root has no key or index"
+                )
             parts[-1] = f"#{parts[-1]}"
 
         return JSONPointer.from_parts(
